@@ -157,6 +157,35 @@ impl Monitor for C14 {
                                 );
                             }
                         }
+                        // (iii-b) a soft solvable WITHOUT requirements that could simply be added to the
+                        // returned set (the set stays valid by the reference rules, soft exemption
+                        // included) must not have been dropped: trying it cannot fail for any reason
+                        // that lies in the problem itself
+                        for &x in order.iter() {
+                            if set.contains(&x) {
+                                continue;
+                            }
+                            // no requirements AND no constrains: x mentions no package at all, so trying
+                            // it cannot change which package-level lists apply to the solvables that
+                            // are already installed
+                            let free = matches!(&u.solvs[x as usize].deps, Deps::Known { reqs, cons } if reqs.is_empty() && cons.is_empty());
+                            if !free {
+                                continue;
+                            }
+                            ctx.rep.count("requirement-free-soft-solvables-rejected");
+                            let mut plus: Vec<u32> = sol.clone();
+                            plus.push(x);
+                            // x itself gets no exemption here: whether its package-level lock /
+                            // exclusion applies depends on whether the package was requested, so the
+                            // rule only speaks about solvables that are acceptable either way
+                            let others: Vec<u32> = p.soft.iter().copied().filter(|&s| s != x).collect();
+                            if rf.check(&p, &plus, &others).is_empty() {
+                                ctx.violation(
+                                    "installable dependency-free soft solvable dropped",
+                                    format!("{what}: {} could be added to {:?} without violating any rule", u.solv_label(x), sol.iter().map(|&s| u.solv_label(s)).collect::<Vec<_>>()),
+                                );
+                            }
+                        }
                         let hs = hook_stats(&sess);
                         if hs.conflicts > 0 {
                             ctx.rep.count("runs-where-soft-or-hard-search-backjumped");
